@@ -1,5 +1,5 @@
 (* Correspondence judge for C14. *)
-From JV Require Import Lib.Base Model.C14ClassSpec Spec.C14Spec Model.C14Guard.
+From JV Require Import Lib.Base Model.C14ClassSpec Model.C14Containers Spec.C14Spec Model.C14Guard.
 
 (* one class-typed option of the parser: declared type, default, the argv items / config-source entries that
    address it (in order), what was observed for it *)
@@ -8,7 +8,10 @@ Record part := { s_base : str; s_dflt : option value; s_steps : list input; s_ob
 Record case := { k_fam : family; k_base : str; k_dflt : option value; k_steps : list input; k_obs : obs;
                  k_twin : option (list input * obs);
                  k_object : bool (* given through parse_object / config sources instead of plain argv: no twin *);
-                 k_sibs : list part (* further class-typed options of the same parser (names may share a prefix) *) }.
+                 k_sibs : list part (* further class-typed options of the same parser (names may share a prefix) *);
+                 k_cont : option (list csrc * option (list (str * obs)))
+                   (* Some: the option is typed Dict[str, k_base] / List[k_base]; its sources and, unless the parse
+                      was rejected, the observation per element (k_steps / k_obs are then unused) *) }.
 
 Fixpoint raw_eqb (n : nat) (a b : raw) : bool :=
   match n with 0 => false | S n' =>
@@ -98,11 +101,42 @@ Definition spec_ok (c : case) : bool :=
      end
   && twin_ok c.
 
+(* an option typed Dict[str, Base] / List[Base]: per-element model (Model/C14Containers.v), per-element spec *)
+Definition cont_model_ok (rs : raw -> raw) (c : case) (srcs : list csrc) (o : option (list (str * obs))) : bool :=
+  match cont_run (k_fam c) rs (k_base c) srcs, o with
+  | None, None => true
+  | Some m, Some os =>
+      list_eqb str_eqb (map fst m) (map fst os)
+      && list_eqb obs_eqb (joint (map snd m)) (map snd os)
+  | _, _ => false
+  end.
+
+Definition cont_spec_ok (c : case) (o : option (list (str * obs))) : bool :=
+  fam_wf (k_fam c)
+  && match o with
+     | None => true
+     | Some os =>
+         forallb (fun ko => match snd ko with
+                            | ORej => false
+                            | OAcc v ITypeErr => valid (k_fam c) (k_base c) v
+                            | o' => obs_ok (k_fam c) (k_base c) None [] o'
+                            end) os
+         && (negb (existsb (fun ko => is_terr (snd ko)) os)
+             || existsb (fun ko => match snd ko with
+                                   | OAcc v _ => negb (instantiable (k_fam c) v && dk_accepted (k_fam c) v)
+                                   | _ => false
+                                   end) os)
+     end.
+
 Definition judge1 (c : case) : verdict :=
+  match k_cont c with
+  | Some (srcs, o) => {| v_model := cont_model_ok restr c srcs o; v_class := 0; v_spec := cont_spec_ok c o |}
+  | None =>
   {| v_model := model_ok run c;
      v_class := if existsb (fun p => negb (N.eqb (guard_class (k_fam c) (s_base p) (s_dflt p) (s_steps p)) 0))
                            (parts_of c) then 1%N else 0%N;
-     v_spec := spec_ok c |}.
+     v_spec := spec_ok c |}
+  end.
 
 Definition judge (cs : list case) := judge_all judge1 cs.
 
@@ -110,8 +144,12 @@ Definition judge (cs : list case) := judge_all judge1 cs.
    Set JUDGE = "judge_fixed" in tie/props/c14.py: the model is then the one that hands the loaded value
    down unchanged (run_fixed), no finding class is left, any recurrence is a VIOLATION. *)
 Definition judge1_fixed (c : case) : verdict :=
+  match k_cont c with
+  | Some (srcs, o) => {| v_model := cont_model_ok (fun r => r) c srcs o; v_class := 0; v_spec := cont_spec_ok c o |}
+  | None =>
   {| v_model := model_ok run_fixed c;
      v_class := 0;
-     v_spec := spec_ok c |}.
+     v_spec := spec_ok c |}
+  end.
 
 Definition judge_fixed (cs : list case) := judge_all judge1_fixed cs.
